@@ -1104,7 +1104,7 @@ def run(ctx):
                 'each a well-formed base request with 0-3 hostile edits (handles, lengths, buffers, templates, mechanism parameters, key/mechanism mismatches), then a well-formed epilogue; '
                 '(c) multi-process lane: serialised interleavings of 2-3 processes on one token (create / set / destroy / find / get on shared labels, handles of objects another process destroyed), file and db back-ends, judged only for termination; '
                 '(b) file fuzz: one structure-aware mutation of object file / token.object / generation / SQLite db / softhsm2.conf / directory layout per case, then a fixed recovery probe in a fresh executor. '
-                '(d) thorough tier only - coverage-guided lane (vlib/fuzzlane.py): libFuzzer harnesses built with ASan/UBSan from the current sources feed arbitrary bytes as <uuid>.object, token.object and softhsm2.conf to the real ObjectFile / OSToken / SimpleConfigLoader classes and to the DER / ByteString helpers, a fixed number of executions per target, one evaluation = one execution. '
+                '(d) coverage-guided lane (15000 runs per target in quick, 300000 in thorough) (vlib/fuzzlane.py): libFuzzer harnesses built with ASan/UBSan from the current sources feed arbitrary bytes as <uuid>.object, token.object and softhsm2.conf to the real ObjectFile / OSToken / SimpleConfigLoader classes and to the DER / ByteString helpers, a fixed number of executions per target, one evaluation = one execution. '
                 'One evaluation = one hostile-sequence call or one mutated-file case; distinct = (entry point, hostile-input tag) pairs actually sent + distinct file-mutation classes; '
                 'violations: Died (ASan, signal, exit/abort/assert), UBSan null/bounds/object-size, non-CKR return value, reproduced hang')
     cfgs = ctx.q([('asan', 'file', 0.9, True), ('asan', 'db', 0.1, False)], [('asan', 'file', 0.4, True), ('asan', 'db', 0.25, True), ('botan', 'file', 0.2, True), ('botan', 'db', 0.15, True)])   # (build, back-end, share of the random workloads, run the directed grids)
@@ -1142,7 +1142,7 @@ def run(ctx):
     called = [f for f in FG.ALL_FNS if ctx.extra['calls_per_entry_point'].get(f, 0) > 0]; ctx.extra['entry_points_called'] = len(called)
     if len(called) < 68: ctx.inconc('only %d of the 68 entry points were called: missing %s' % (len(called), sorted(set(FG.ALL_FNS) - set(called))))
     ctx.extra['configs'] = ['%s/%s%s' % (c[0], c[1], ' (+grids)' if c[3] else '') for c in cfgs]
-    if not ctx.quick and not ctx.replay: import fuzzlane; fuzzlane.run_fuzz_lane(ctx, 300000)
+    if not ctx.replay: import fuzzlane; fuzzlane.run_fuzz_lane(ctx, ctx.q(15000, 300000))      # quick: a small dose (about 20 s); thorough: 300000 runs per target
     ctx.assumptions += ['every pointer argument references a block of at least the stated size (lengths only lie downwards; enforced by the executor too); NULL only for size queries, pTemplate with count 0, pPin/pData/pParameter with length 0',
                         'UBSan categories other than null-pointer load/store/member access, bounds and object-size are observations (listed under observations), not violations',
                         'where an abort has no sanitizer stack (exit() from the exception barrier) the death location is "?"',
@@ -1151,7 +1151,10 @@ def run(ctx):
                         'coverage-guided lane: the classes are driven by harnesses (exec/fuzz_*.cpp) that repeat the read / refresh / write-back calls of OSToken, Token, P11Attributes and C_Initialize, not by libsofthsm2.so itself; inputs are at most 4096 bytes; UBSan is judged as in the other lanes (null-pointer access and bounds end an execution, other categories are printed only)']
 
 def replay(ctx):
-    w = json.load(open(ctx.replay))['witness']; cfg = w['cfg']; be = w['backend']; ctx.need(cfg)
+    w = json.load(open(ctx.replay))['witness']
+    if 'artifact_hex' in w or str(w.get('target', '')) in ('objectfile', 'tokenobject', 'config', 'der'):      # a witness of the coverage-guided lane
+        import subprocess; sys.exit(subprocess.call([sys.executable, os.path.join(VERIF, 'vlib', 'fuzzlane.py'), 'replay', ctx.replay]))
+    cfg = w['cfg']; be = w['backend']; ctx.need(cfg)
     env = dict(paths=ctx.paths, hdr=ctx.paths[cfg]['hdr'], ck=ctx.ck, cfg=cfg, backend=be, scratch=ctx.scratch, ncalls=w.get('ncalls', 30), seed=w['seed'])
     g = ctx.dir('golden'); env['golden'] = g; build_golden(env, g, small=(w['mode'] == 'file')); part = Part()
     if w['mode'] == 'grid':
